@@ -284,8 +284,6 @@ function Language.getDurationIntervals(self, seconds, allowedIntervals)
    return ret
 end
 
-local _en_lang = Language:new{code="en"}
-
 local mw_language = {
    -- fetchLanguageName(code, inLanguage)
    -- fetchLanguageNames(inLanguage=None, include=None)
@@ -309,7 +307,10 @@ end
 function mw_language.getContentLanguage()
    -- This appears to be called very commonly by English nouns
    -- print("mw.language.getContentLanguage called")
-   return _en_lang
+   -- A new object for every call: the object is a plain writable table, and
+   -- one shared object would carry what a module wrote into it to every later
+   -- invocation and page (this library is kept loaded across resets)
+   return Language:new{code="en"}
 end
 
 function mw_language.getFallbacksFor(code)
